@@ -595,7 +595,7 @@ func runC01(c *Ctx) {
 			// (ii) one-shot
 			var del ssa.Instruction
 			eachInstr(pollFn, func(x ssa.Instruction) {
-				if isCallTo(x, dels...) && dominatesInstr(x, in) && guard != nil {
+				if xc, isCall := x.(ssa.CallInstruction); isCall && (isCallTo(x, dels...) || clearsBitCall(xc, eventsF, flag)) && dominatesInstr(x, in) && guard != nil {
 					gb := guard.If.Block()
 					tb := gb.Succs[0]
 					if !guard.Pos {
@@ -683,6 +683,7 @@ func runC01(c *Ctx) {
 		}
 		// contexts: constants bound to the parameters at each call site (one empty context when no index is a parameter)
 		contexts := []map[ssa.Value]int64{{}}
+		fnContexts := []map[ssa.Value]*types.Func{{}} // function-valued parameters bound to a method value at the call site
 		needCtx := false
 		for _, h := range hcalls {
 			if h.idx != nil {
@@ -690,7 +691,7 @@ func runC01(c *Ctx) {
 			}
 		}
 		if needCtx {
-			contexts = nil
+			contexts, fnContexts = nil, nil
 			top := fn
 			for top.Parent() != nil {
 				top = top.Parent()
@@ -700,14 +701,24 @@ func runC01(c *Ctx) {
 			}
 			for _, site := range p.callers(fn) {
 				ctx := map[ssa.Value]int64{}
+				fctx := map[ssa.Value]*types.Func{}
 				for i, prm := range fn.Params {
 					if i < len(site.Common().Args) {
 						if k, ok := constInt(site.Common().Args[i]); ok {
 							ctx[prm] = k
 						}
+						// a method value (x.UnsetRead) handed in as the operation that removes the interest
+						if mc, ok := strip(site.Common().Args[i]).(*ssa.MakeClosure); ok {
+							if bf, ok := mc.Fn.(*ssa.Function); ok && strings.Contains(bf.Synthetic, "bound method wrapper") {
+								if mo, _ := bf.Object().(*types.Func); mo != nil {
+									fctx[prm] = mo
+								}
+							}
+						}
 					}
 				}
 				contexts = append(contexts, ctx)
+				fnContexts = append(fnContexts, fctx)
 			}
 			if len(contexts) == 0 {
 				c.bad(fn, "cancel paths", fn.Pos(), "the direction of the handler invoked by %s is not a constant and the function has no call site to take it from", fnName(fn))
@@ -728,7 +739,8 @@ func runC01(c *Ctx) {
 		}
 		bad := ""
 		var badPos token.Pos
-		for _, ctx := range contexts {
+		for ci, ctx := range contexts {
+			fctx := fnContexts[ci]
 			for _, path := range paths {
 				if path.Panics {
 					continue
@@ -757,6 +769,18 @@ func runC01(c *Ctx) {
 						removed[e.writeEv] = true
 					case isCallTo(in, delBoth...):
 						removed[e.readEv], removed[e.writeEv] = true, true
+					}
+					if dc, ok := in.(ssa.CallInstruction); ok && isDynamicFuncCall(dc) {
+						if mo := fctx[stripConv(dc.Common().Value)]; mo != nil {
+							switch {
+							case isOneOf(mo, delRead):
+								removed[e.readEv] = true
+							case isOneOf(mo, delWrite):
+								removed[e.writeEv] = true
+							case isOneOf(mo, delBoth):
+								removed[e.readEv], removed[e.writeEv] = true, true
+							}
+						}
 					}
 					for _, h := range hcalls {
 						if h.in != in {
@@ -794,8 +818,8 @@ func runC01(c *Ctx) {
 											}
 										}
 										for i := li + 1; li >= 0 && i < hi; i++ {
-											if cc, ok := instrs[i].(ssa.CallInstruction); ok && isDynamicFuncCall(cc) {
-												stale = true
+											if cc, ok := instrs[i].(ssa.CallInstruction); ok && isDynamicFuncCall(cc) && fctx[stripConv(cc.Common().Value)] == nil {
+												stale = true // a handler (user code) ran; a method value bound at the call site is library code
 											}
 										}
 									}
@@ -1302,6 +1326,20 @@ func checkHangupFolding(c *Ctx, pollFn *ssa.Function, readFlag, writeFlag int64)
 				if derivesFromField(v, maskF, 0) {
 					kernelOps = append(kernelOps, v)
 				}
+				// the dispatching helper receives the (already widened) readiness mask as an argument: judge the argument
+				// at every call site
+				if prm, isPrm := v.(*ssa.Parameter); isPrm && prm.Parent() == pollFn && !loadOfField(v, eventsF) {
+					for i, q := range pollFn.Params {
+						if q != prm {
+							continue
+						}
+						for _, site := range p.callers(pollFn) {
+							if i < len(site.Common().Args) && derivesFromField(site.Common().Args[i], maskF, 0) {
+								kernelOps = append(kernelOps, site.Common().Args[i])
+							}
+						}
+					}
+				}
 			}
 			collect(x, 0)
 			for _, kv := range kernelOps {
@@ -1326,6 +1364,15 @@ func derivesFromField(v ssa.Value, f *types.Var, depth int) bool {
 		return true
 	}
 	switch x := v.(type) {
+	case *ssa.Call:
+		// a helper of the same package that computes the events to wake up from the kernel mask
+		if h := x.Call.StaticCallee(); h != nil && x.Parent() != nil && isHelperOf(x.Parent(), h) {
+			for _, a := range x.Call.Args {
+				if derivesFromField(a, f, depth+1) {
+					return true
+				}
+			}
+		}
 	case *ssa.Phi:
 		for _, e := range x.Edges {
 			if derivesFromField(e, f, depth+1) {
@@ -1342,7 +1389,49 @@ func derivesFromField(v ssa.Value, f *types.Var, depth int) bool {
 // unconditional expression that ors both flags under that test. Recognised shape: a phi one of whose edges is
 // BinOp(OR, raw, C) with C containing `both`, coming from a block guarded by (raw & M) != 0 with M containing hupErr.
 func foldsHangup(v ssa.Value, maskF *types.Var, hupErr, both int64) bool {
+	return foldsHangupRaw(v, func(x ssa.Value) bool { return derivesFromField(x, maskF, 0) }, hupErr, both)
+}
+
+func foldsHangupRaw(v ssa.Value, isRaw func(ssa.Value) bool, hupErr, both int64) bool {
 	v = stripConv(v)
+	if call, isCall := v.(*ssa.Call); isCall {
+		// the widening lives in a helper: every value it returns is the widened form of its parameter
+		h := call.Call.StaticCallee()
+		if h == nil || call.Parent() == nil || !isHelperOf(call.Parent(), h) {
+			return false
+		}
+		var derivesFromParam func(x ssa.Value, d int) bool
+		derivesFromParam = func(x ssa.Value, d int) bool {
+			x = stripConv(x)
+			if d > 8 {
+				return false
+			}
+			if _, isP := x.(*ssa.Parameter); isP {
+				return true
+			}
+			switch y := x.(type) {
+			case *ssa.Phi:
+				for _, e := range y.Edges {
+					if derivesFromParam(e, d+1) {
+						return true
+					}
+				}
+			case *ssa.BinOp:
+				return derivesFromParam(y.X, d+1) || derivesFromParam(y.Y, d+1)
+			}
+			return false
+		}
+		rets := returnsOf(h)
+		if len(rets) == 0 {
+			return false
+		}
+		for _, r := range rets {
+			if len(r.Results) != 1 || !foldsHangupRaw(r.Results[0], func(x ssa.Value) bool { return derivesFromParam(x, 0) }, hupErr, both) {
+				return false
+			}
+		}
+		return true
+	}
 	ph, ok := v.(*ssa.Phi)
 	if !ok {
 		return false
@@ -1356,7 +1445,7 @@ func foldsHangup(v ssa.Value, maskF *types.Var, hupErr, both int64) bool {
 		if !ok || k&both != both {
 			continue
 		}
-		if !derivesFromField(bo.X, maskF, 0) {
+		if !isRaw(bo.X) {
 			continue
 		}
 		pred := ph.Block().Preds[i]
@@ -1370,7 +1459,7 @@ func foldsHangup(v ssa.Value, maskF *types.Var, hupErr, both int64) bool {
 				continue
 			}
 			m, ok := constInt(and.Y)
-			if ok && m&hupErr == hupErr && derivesFromField(and.X, maskF, 0) {
+			if ok && m&hupErr == hupErr && isRaw(and.X) {
 				return true
 			}
 		}
@@ -1402,4 +1491,33 @@ func eventsLoadsIn(v ssa.Value, f *types.Var, depth int) []*ssa.UnOp {
 		return out
 	}
 	return nil
+}
+
+// clearsBitCall: the call (of a function of the analysed packages) clears the given interest bit of Slot.Events, in its
+// own body or in an unexported helper, the bit being a constant there or the parameter the call binds to that constant.
+func clearsBitCall(call ssa.CallInstruction, eventsF *types.Var, flag int64) bool {
+	callee := call.Common().StaticCallee()
+	if callee == nil || callee.Blocks == nil {
+		return false
+	}
+	for _, d := range deepStoresTo(callee, eventsF) {
+		ev := classifyEventsStore(d.Store, eventsF)
+		if ev.kind != "clear" {
+			continue
+		}
+		m := stripConv(d.translate(ev.mask))
+		if k, ok := constInt(m); ok && k == flag {
+			return true
+		}
+		if prm, ok := m.(*ssa.Parameter); ok {
+			for i, q := range callee.Params {
+				if q == prm && i < len(call.Common().Args) {
+					if k, ok := constInt(call.Common().Args[i]); ok && k == flag {
+						return true
+					}
+				}
+			}
+		}
+	}
+	return false
 }
